@@ -75,6 +75,9 @@ func runCase(line string) string {
 			return id + " BADCASE"
 		}
 		return id + " " + runV(f[2], uint16(v), f[4])
+	case "R":
+		res, _ := runR(f)
+		return id + " " + res
 	case "PK", "PS", "PR", "PH":
 		res, _ := hx.Guard(pDeadline, func() string { return runP(f) })
 		return id + " " + res
@@ -116,6 +119,11 @@ func dbg(path, only string) {
 		if f[0] == "H" {
 			r, d := runHd(f[2], parseCfg(f[3]))
 			fmt.Fprintf(os.Stderr, "%s %s %s -> %s [%s]\n", f[1], f[2], f[3], r, d)
+			continue
+		}
+		if f[0] == "R" {
+			r, d := runR(f)
+			fmt.Fprintf(os.Stderr, "%s\n   -> %s [%s]\n", l, r, d)
 			continue
 		}
 		if f[0] != "S" {
